@@ -20,6 +20,7 @@ EXPLANATION = (
     "Numeric correctness of LEB128/zig-zag and value equality after decoding are NOT decided.")
 
 NOT_DECIDED = [
+    "an exhausted RangeInclusive (its private `exhausted` flag takes part in equality) is encoded as (start, end) and decodes to a fresh range; non-UTF-8 paths are rejected by Encode for Path",
     "arithmetic of the (non-const) varint READERS at the boundaries (the const encoders and zig-zag are decided by the C12.g witness); equality of decoded collections; byte-exact consumption (follows from shape equality only if primitives round-trip)",
     "which variant a tag is decoded into when several variants carry the same field types (variant correspondence is checked only through the emitted tag constants)",
 ]
